@@ -483,6 +483,8 @@ class Executor:
             raise self.panic(st, "nil dereference")
         if ptr.obj in st.ghost.get("bs_released", ()):
             raise GoPanic("write to pooled memory after it was returned with byteslice.Put")
+        if ptr.obj in st.ghost.get("rb_released", ()):
+            raise GoPanic("write to a ring buffer after it was returned to the ring-buffer pool")
         st.heap[ptr.obj] = self.tree_set(st.heap[ptr.obj], ptr.path, val)
 
     def sym_positions(self, st, ptr):
@@ -572,6 +574,9 @@ class Executor:
                 try:
                     zv = self.zero(et)
                 except Unsupported:
+                    zv = Opaque(name)
+                if not self.init_allowed(g.get("pkg", "")) and not name.endswith("init$guard"):
+                    # the package initialiser is not executed: the variable's value is unknown, never "zero"
                     zv = Opaque(name)
                 if self.p.T(et)["k"] == "named" and self.p.U(et)["k"] == "iface" or self.p.T(et)["k"] == "iface":
                     # error-like sentinel of a package whose init is not executed: opaque distinct identity
@@ -1044,6 +1049,12 @@ class Executor:
                             except PathEnd:
                                 pass
                         st.pc.append(z3.Not(z))
+                if op == "%" and not self.bv and is_sym(y) and self._region is None:
+                    # cursor wrap-around idiom (a+b) % size: if 0 <= x < 2y is valid here, the result is linear
+                    X, Y = self.A.mk(x), self.A.mk(y)
+                    lin = z3.And(X >= 0, Y > 0, X - Y < Y)
+                    if self.check(st, z3.Not(lin)) == "unsat":
+                        return simp(z3.If(X < Y, X, X - Y))
                 if op in ("<<", ">>"):
                     # shift count may have a different type; negative signed count panics (not modelled: counts are unsigned or constant here)
                     pass
